@@ -125,6 +125,7 @@ type State struct {
 	lastNow *Term
 	preemptions int
 	atPreempt   bool
+	timerYielded bool // this select already let the other goroutines run before its timer fires
 	initDone    map[*ssa.Package]bool // dependency packages whose initialiser has run in this state's lineage
 }
 
@@ -167,6 +168,7 @@ type Machine struct {
 	preemptBound int
 	preemptAt   []string
 	timersOff   bool
+	timersWait  bool
 	xcheckEvery int
 	xcheckMax   int
 	xcheckDir   string
@@ -239,6 +241,7 @@ func (s *State) clone() *State {
 		n.initDone[k] = v
 	}
 	n.atPreempt = s.atPreempt
+	n.timerYielded = s.timerYielded
 	n.pc = append([]*Term(nil), s.pc...)
 	n.reached = map[string]bool{}
 	for k := range s.reached {
